@@ -97,10 +97,31 @@ def other_eval(case, f):
             why = f'input that is not a whole number of blocks with correct trailers was not refused ({res[0]})'
         return {'obs': 'ok ' + common.sig(res[1]) if res[0] == 'ok' else res[0], 'violation': why,
                 'nontrivial': True, 'tags': ['unblock:' + res[0].split(':')[0]]}
+    if case['k'] == 'vbslist':
+        # the convenience reader over a blocked byte string: records out of the payload stream
+        recs = common.pc_records(case['lens'])
+        try:
+            back = mciipm.vbs_bytes_to_list(f, blocked=True)
+            end = 'eof'
+        except mciipm.MciIpmDataError:
+            back, end = None, 'err'
+        except Exception as ex:  # noqa
+            back, end = None, 'escape:' + type(ex).__name__
+        why = None if back == recs else f'vbs_bytes_to_list(blocked=True) returned {len(back or [])} records ({end}), the file holds {len(recs)}'
+        return {'obs': 'ok ' + ','.join(common.sig(r) for r in (back or [])) + ' ' + end, 'violation': why,
+                'nontrivial': len(f) > 2028, 'tags': ['vbslist']}
     raise ValueError(case['k'])
 
 
+def vbs_blocked_hex(lens):
+    import struct
+    stream = b''.join(struct.pack('>I', len(r)) + r for r in common.pc_records(lens)) + b'\x00' * 4
+    return ref_blockify(stream).hex()
+
+
 def model_line(case):
+    if case['k'] == 'vbslist':
+        return f"vbs.read\t1\t6000\t{case['file']}"
     if case['k'] == 'reads':
         return 'u1014.reads\t' + case['file'] + '\t' + ','.join('-' if n is None else str(n) for n in case['reads'])
     return 'unblock\t' + case['file']
@@ -137,6 +158,17 @@ def explore(run, tier):
                  'blkcut:3036:1', 'pc:1014', 'pc:5']:
         for reads in ([None], [None, None], [None, 4], [4, None], [1, None, None], [5000], [0 or None, 1]):
             cases.append({'k': 'reads', 'file': spec, 'reads': reads})
+    # the list-returning convenience reader over blocked byte strings of one to eight blocks
+    for lens in ([5], [1004], [1005], [900, 900], [1000, 1000, 1000], [2500, 17, 3000], [500] * 12, [6000], [1012] * 7,
+                 [3, 2020, 3, 1008, 1]):
+        cases.append({'k': 'vbslist', 'file': 'hex:' + vbs_blocked_hex(lens), 'lens': lens})
+    # payloads made of ONE byte value (line feed, carriage return, the filler, NUL, 0xFF): whatever stands at the first
+    # or last position of a block is data
+    for fill in (0x0a, 0x0d, 0x40, 0x00, 0xff, 0x1a):
+        for n in (1012, 2500, 4000):
+            spec = 'hex:' + ref_blockify(bytes([fill]) * n).hex()
+            for reads in ([None], [4, 300, None], [1012, 1012, 1012, None], [1011, 2, 1011, 2, None], [n], [5000]):
+                cases.append({'k': 'reads', 'file': spec, 'reads': reads})
     for _ in range(3000 if tier == 'quick' else 60000):
         n = rng.choice([1000, 1012, 1013, 2024, 2500, 3036, 5000])
         cut = rng.choice([None, None, rng.randrange(0, ((n + P - 1) // P) * 1014 + 1)])
